@@ -86,7 +86,7 @@ CHECKS = {
         level="exploration", engine="sched",
         technique="stateless DFS over goroutine schedules (deviation-bounded) of the real channel manager inside synctest bubbles, exhaustive over script and schedule space within the bounds",
         text="The real replicateChannelManager (handlers, TS manager, barriers) is driven by fakemq streams; every single-stream script up to the length bound and every schedule of the multi-stream scenarios within the deviation bound is executed and the emitted stream is compared with the source log (complete, duplicate-free, ordered, payload-exact, packs in read order with the right labels).",
-        note="Bounds: scripts <= 2 packs (3 thorough) over 13 pack letters; <= 2 deviations (3 thorough); hook-to-hook segments are atomic; source dispatcher and downstream are the models of DESIGN 2.7.",
+        note="Bounds: scripts <= 2 packs (3 thorough) over 13 pack letters; <= 2 deviations (3 thorough); hook-to-hook segments are atomic; source dispatcher and downstream are the models of DESIGN 2.7. Kafka-downstream scenarios (the manager's other start path, identity addressing) are part of C01, C02 and C04.",
         parts=[part("stream", "core", "reader", "TestVerifC01Stream", shards=(12, 16), budget=(150, 900), gomaxprocs=1),
                part("race", "core", "reader", "TestVerifC01Stream", shards=(4, 8), budget=(60, 300), race=True)],
     ),
